@@ -471,8 +471,14 @@ impl ExactSizeIterator for ZReorderMap {
 /// # }
 /// ```
 pub struct ZReorderMapBuilder {
-    /// Output file
+    /// Output file (the temporary sibling `tmp_path` until `finish` publishes it)
     file: File,
+    /// Where the finished map is published
+    path: PathBuf,
+    /// Temporary sibling file the records are written to
+    tmp_path: PathBuf,
+    /// Set by `finish` once the map has been renamed into place
+    published: bool,
     /// Base value of current sequence
     base_value: usize,
     /// Length of current sequence
@@ -521,12 +527,22 @@ impl ZReorderMapBuilder {
             )));
         }
 
+        // The records are written to a temporary sibling file which `finish` flushes and
+        // then renames over `path`: the map has no checksum, so a partially persisted
+        // build (a block of records lost while the file length was kept) could otherwise
+        // reopen as a well-formed map with different values.  A crash at any point leaves
+        // either the previous file at `path` (or none) or the complete new map.
+        let path = path.as_ref().to_path_buf();
+        let mut tmp_name = path.as_os_str().to_os_string();
+        tmp_name.push(".build-tmp");
+        let tmp_path = PathBuf::from(tmp_name);
+
         // Create file
         let mut file = OpenOptions::new()
             .write(true)
             .create(true)
             .truncate(true)
-            .open(path)?;
+            .open(&tmp_path)?;
 
         // Write header: [size: u64][sign: i64] in one write, so that an interrupted
         // build can never leave a well-formed header that lacks one of its fields
@@ -537,6 +553,9 @@ impl ZReorderMapBuilder {
 
         Ok(Self {
             file,
+            path,
+            tmp_path,
+            published: false,
             base_value: usize::MAX,  // Invalid initial value
             seq_length: 0,
             sign,
@@ -666,6 +685,10 @@ impl ZReorderMapBuilder {
         self.file.flush()?;
         self.file.sync_all()?;
 
+        // Publish the complete map
+        std::fs::rename(&self.tmp_path, &self.path)?;
+        self.published = true;
+
         Ok(())
     }
 
@@ -719,6 +742,15 @@ impl ZReorderMapBuilder {
         }
 
         Ok(())
+    }
+}
+
+impl Drop for ZReorderMapBuilder {
+    fn drop(&mut self) {
+        // An abandoned or failed build leaves nothing behind
+        if !self.published {
+            let _ = std::fs::remove_file(&self.tmp_path);
+        }
     }
 }
 
